@@ -703,6 +703,23 @@ class Table18:
         return z3.ForAll([i], z3.Implies(z3.And(self.R(i), self.e(i) == i), c(i) == i))
 
 
+class AnyName(dict):
+    """loop `rebind` rule for whatever name an array has that the loop body rebinds (`a = f(a)`): a fresh array of the same kind and length"""
+
+    def get(self, key, default=None):
+        def rule(eng, cur):
+            from pyvc.engine import Unsupported
+            from pyvc.values import fresh, kind_of
+
+            if isinstance(cur, SArr):
+                return SArr.fresh(cur.kind, cur.n, name=cur.name)
+            if kind_of(cur) is not None:  # a scalar the loop assigns: an unknown of the same kind (the engine's default)
+                return fresh(kind_of(cur), str(key))
+            raise Unsupported(f"loop rebinds {key} (a {type(cur).__name__})")
+
+        return rule
+
+
 def register_get_dsu(R):
     def setup(S):
         df = S.dframe(SWC_COLS)
@@ -805,8 +822,8 @@ def register_get_dsu(R):
           lemmas=[edges_resolve],
           options=dict(asserts_after={"dsu": [("labels-start-as-the-parent-rows", initial_labels)]}),
           ensures=[(nm, post(nm)) for nm in POSTS],
-          loops={0: dict(invariant=[(nm, inv(nm)) for nm in SHARED]),
-                 1: dict(invariant=[(nm, inv(nm)) for nm in SHARED + ["no-change-so-far-in-this-pass"]])},
+          loops={0: dict(invariant=[(nm, inv(nm)) for nm in SHARED], rebind=AnyName()),
+                 1: dict(invariant=[(nm, inv(nm)) for nm in SHARED + ["no-change-so-far-in-this-pass"]], rebind=AnyName())},
           notes="holds for every table whose parent ids name rows, WITH OR WITHOUT cycles (partial correctness: termination of the fixpoint "
                 "iteration is not proved); the input frame is frozen (any store into it is a failed frame obligation)")
 
@@ -1059,11 +1076,18 @@ def register_link_roots(R):
            "forest/other-rows-hang-one-level-below-their-parent-row-in-the-same-tree", "labels-are-equal-exactly-within-a-tree"]
 
     # ------------------------------------------------------------ ghost code: after the store of the new parent id
+    LINK = "link_roots_to_nearest_/link/"
+
     def g_link(E, v):
-        G = v["G"]
-        rt, dp, par = G.fields["rt"].arr, G.fields["dp"].arr, G.fields["par"].arr
+        """runs right after `df.loc[i, pid] = id[argmin]`:
+        (1) the STEP CLAUSES of the property for this link (obligations of kind `assert`: every other root is hung under the nearest row
+            outside its own tree).  With the loop option `lookahead` they are proved in an arbitrary iteration that starts in a state
+            satisfying the invariant AND in the iteration after it, which starts in the state the body really produced;
+        (2) the ghost forest update."""
         import ast as _ast
 
+        G = v["G"]
+        rt, dp, par = G.fields["rt"].arr, G.fields["dp"].arr, G.fields["par"].arr
         # the row being linked is the first component of the loop target (looked up in the carrier's AST: renaming it is harmless)
         fn_node = E.cur_frame.func.node if E.cur_frame is not None and E.cur_frame.func is not None else None
         tgt = [n_.target.elts[0].id for n_ in _ast.walk(fn_node) if isinstance(n_, _ast.For) and isinstance(n_.target, _ast.Tuple) and n_.target.elts
@@ -1073,7 +1097,26 @@ def register_link_roots(R):
         if len(i) != 1 or dis.idx is None:
             raise KeyError("link_roots_to_nearest_: cannot identify the root being linked / the chosen row")
         i, j = i[0].z, dis.idx.z
-        E.ghost["link-step"] = dict(rt=rt, dp=dp, i=i, j=j, mask=dis.mask)  # the state before the update, for the proof steps below
+        d0, d1 = E.top_old["df"], v["df"]
+        n, ID, P1 = zint(d0.n), d0.cols["id"].arr, d1.cols["pid"].arr
+        r0 = by_type(v, RowIter18, "row iterator").sel.flt.kappa(0)
+        mask, data = dis.mask, dis.data
+        # proof steps: the first root's tree is another tree, so some row is unmasked
+        E.prove("link_roots_to_nearest_/step/the-first-root-heads-another-tree", z3.And(r0 >= 0, r0 < n, sel(rt, r0) == r0, sel(rt, i) == i, r0 != i), "annotation")
+        E.prove("link_roots_to_nearest_/step/some-row-lies-in-another-tree", z3.Not(mask.get(r0).z), "annotation")
+        # step clauses of the property
+        E.prove(LINK + "the-root-gets-as-parent-the-id-of-a-row-outside-its-own-tree", z3.And(j >= 0, j < n, sel(rt, j) != i, sel(P1, i) == sel(ID, j)), "assert")
+        y = z3.Int(fresh_name("any_row"))
+        dy = data.get(y).z
+        M = getattr(data, "norm_of", None)
+        if M is None or len(M.cols) != 3:
+            raise KeyError("link_roots_to_nearest_: the distance array is not the row norm of an (n, 3) array")
+        comp = [to_z3(Sym(sel(c, y), M.kind), "real") for c in M.cols]
+        E.prove(LINK + "the-distance-array-holds-the-euclidean-distances-of-the-input-coordinates-to-the-root",
+                z3.Implies(z3.And(y >= 0, y < n), z3.And(dy >= 0, dy * dy == comp[0] * comp[0] + comp[1] * comp[1] + comp[2] * comp[2],
+                                                         *[cv == sel(d0.cols[c].arr, y) - sel(d0.cols[c].arr, i) for cv, c in zip(comp, ("x", "y", "z"))])), "assert")
+        E.prove(LINK + "no-row-outside-its-own-tree-is-nearer", z3.Implies(z3.And(y >= 0, y < n, sel(rt, y) != i), data.get(j).z <= dy), "assert")
+        # ghost update: the tree of i now hangs under row j
         x = z3.Int("x18")
         moved = sel(rt, x) == i
         G.fields["rt"].arr = z3.Lambda([x], z3.If(moved, sel(rt, j), sel(rt, x)))
@@ -1081,25 +1124,6 @@ def register_link_roots(R):
         G.fields["par"].arr = z3.Store(par, i, j)
 
     GHOST = [(lambda txt: ".loc[" in txt.split("=")[0] and ".iloc[" in txt, g_link)]
-
-    def step_hint(E, v):
-        """proof steps of one iteration (each its own obligation): the first root's tree is another tree, so argmin picks a row of another tree"""
-        st = E.ghost.get("link-step")
-        if st is None or "G" not in v:
-            return
-        it = by_type(v, RowIter18, "row iterator")
-        kappa, n = it.sel.flt.kappa, zint(v["df"].n)
-        rt, i, j, mask = st["rt"], st["i"], st["j"], st["mask"]
-        r0 = kappa(0)
-        E.prove("link_roots_to_nearest_/step/the-first-root-heads-another-tree", z3.And(r0 >= 0, r0 < n, sel(rt, r0) == r0, sel(rt, i) == i, r0 != i), "annotation")
-        E.prove("link_roots_to_nearest_/step/some-row-lies-in-another-tree", z3.Not(mask.get(r0).z), "annotation")
-        E.prove("link_roots_to_nearest_/step/the-chosen-row-lies-in-another-tree", z3.And(j >= 0, j < n, sel(rt, j) != i), "annotation")
-
-    class AnyName(dict):
-        """rebind rule for whatever name the label array has: a fresh int array of the same length"""
-
-        def get(self, key, default=None):
-            return lambda eng, cur: SArr.fresh(cur.kind, cur.n, name=cur.name)
 
     # ------------------------------------------------------------ postconditions
     def witnesses(E, v, n):
@@ -1143,8 +1167,8 @@ def register_link_roots(R):
              "no-cycle-introduced(every-row-hangs-one-level-below-its-parent-row,the-first-root-is-the-only-row-at-depth-0)"]
     R.add(f"{NORM}:link_roots_to_nearest_", prop="C18", setup=setup, requires=PRE, modifies=["df"],
           ensures=[(nm, post(nm)) for nm in POSTS] + [("attributes-untouched", other_cols)],
-          loops={0: dict(invariant=[(nm, inv(nm)) for nm in INV], modifies=["G", "df"], rebind=AnyName())},
-          options=dict(ghost_after=GHOST, hints={"loop0/preserved/only-the-parent-column-is-written": step_hint}),
+          loops={0: dict(invariant=[(nm, inv(nm)) for nm in INV], modifies=["G", "df"], rebind=AnyName(), lookahead=True)},
+          options=dict(ghost_after=GHOST),
           notes="which foreign row is chosen (the nearest) is not part of the property: the contract needs only that argmin over the rows of OTHER trees "
                 "returns a row of another tree; termination of get_dsu is not proved")
 
